@@ -96,6 +96,14 @@ class Profile:
     def op_class(self, op):
         return op["op"]
 
+    def abstract(self, W):
+        """Abstract state of the world (coverage measure); profiles that keep their own parties
+        (W.parties: handle -> grid) are covered too."""
+        from . import world as Wd
+
+        extra = tuple((h, Wd.state_id(Wd.abstract_state(g))) for h, g in sorted(getattr(W, "parties", {}).items()))
+        return W.abstract() + extra
+
     def source_class(self, spec):
         if spec.get("kind") == "file":
             return "file:" + spec["path"] + (":dual" if spec.get("use_dual") else "")
@@ -120,14 +128,14 @@ class Profile:
         n = 0
         self.begin(W)
         for i, op in enumerate(trace["ops"]):
-            before = W.abstract()
+            before = self.abstract(W)
             out, vs = self.step(W, i, op)
             n += 1
             cls = self.op_class(op)
             W.cov["op_classes"][cls] = W.cov["op_classes"].get(cls, 0) + 1
             log.update(json.dumps(op, sort_keys=True).encode())
             log.update(C.digest(out).encode())
-            after = W.abstract()
+            after = self.abstract(W)
             sb = hashlib.sha1(repr(before).encode()).hexdigest()[:10]
             sa = hashlib.sha1(repr(after).encode()).hexdigest()[:10]
             states.add(sa)
@@ -141,7 +149,7 @@ class Profile:
         cov = W.cov
         cov["states"] = sorted(states)
         cov["transitions"] = sorted(transitions)
-        srcs = sorted(self.source_class(s) for h, s in trace["sources"].items() if h in W.src)
+        srcs = sorted(self.source_class(s) for h, s in trace["sources"].items() if h in W.src or h in getattr(W, "parties", {}))
         cov["fingerprint"] = hashlib.sha1(repr((srcs, sorted(fp_trans))).encode()).hexdigest()[:16]
         cov["clock"] = {"reads": Wd.SimClock.reads, "span_s": Wd.SimClock.span}
         cov["interleavings"] = sorted(Wd.SimPrange.interleavings)
